@@ -9,10 +9,10 @@ fn m_ent(e: Ent) -> Ent {
     e
 }
 fn m_key(e: Ent) -> Ent {
-    (e.0, (0, 0))
+    (e.0, (254, 254))
 }
 fn m_val(e: Ent) -> Ent {
-    (255, e.1)
+    (254, e.1)
 }
 fn p_ent<K: KeyT, V: ValT>(x: (&K, &V)) -> Ent {
     (x.0.id(), x.1.kv())
@@ -21,13 +21,13 @@ fn p_ent_mut<K: KeyT, V: ValT>(x: (&K, &mut V)) -> Ent {
     (x.0.id(), x.1.kv())
 }
 fn p_key<K: KeyT>(k: &K) -> Ent {
-    (k.id(), (0, 0))
+    (k.id(), (254, 254))
 }
 fn p_val<V: ValT>(v: &V) -> Ent {
-    (255, v.kv())
+    (254, v.kv())
 }
 fn p_val_mut<V: ValT>(v: &mut V) -> Ent {
-    (255, v.kv())
+    (254, v.kv())
 }
 
 pub struct IterStats {
